@@ -26,8 +26,8 @@ def run(tier, seed):
                  ["commonmark", "cm+table+strike"], "all strings t of <= k characters over a 28-symbol alphabet (ASCII punctuation, letters, non-ASCII, C0), both encodings, 7 templates; distinct = distinct t",
                  "texts x {backslash, character reference} x {paragraph, heading, emphasis, link text, image alt, link title, table cell}")
     rep.explanation = ("Mixed. Deductive: the escape rule (pyvc, all paths): fires only on a backslash, for an ASCII-punctuation successor pushes exactly one text_special whose content is that character and advances by 2, "
-                       "keeps backslash + character otherwise, never touches level/posMax, is pure when silent or failing; ORDER: text_join runs last in the core chain. Bounded: the end-to-end statement on the real render over templates x texts "
-                       "(entity rule, text_join folding, renderer escaping, title unescaping are covered there).")
+                       "keeps backslash + character otherwise, never touches level/posMax, is pure when silent or failing; the entity rule (structural regex model): fires only on '&', consumes exactly one reference ending in ';', pushes one text_special (info 'entity') and leaves nothing in the pending text; text_join folds every special (incl. image descriptions); ORDER: text_join runs last in the core chain. Bounded: the end-to-end statement on the real render over 9 templates x texts "
+                       "(the decoded value of a reference, renderer escaping and title unescaping are covered there).")
     rep.trusted_base += STD_TRUST
     rep.assumptions += ["table cell template written with padding blanks (`| e |`), see DESIGN.md 5 #11"]
     return rep
